@@ -30,6 +30,11 @@ def gen(ck, n):
             runs.append(r)
         p["runs"] = runs
         ps.append(p)
+    for i in range(max(20, n // 8)):     # directed: one defining statement of every kind, assertion in a dominated block
+        p = proggen.backward_pattern_program(ck.rng, n + i + 1)
+        p["fwdinv"] = []
+        p["runs"] = [{"dom": d, "mode": "err", "wd": 1, "desc": 1, "th": 0} for d in DOMS]
+        ps.append(p)
     return ps
 
 
